@@ -21,6 +21,10 @@ open Frappy.Discovery (Str Bytes Iface Send Dest Exc JTop Member)
 /-- the limit of the statement -/
 def limit : Nat := 508
 
+/-- a datagram of up to this many bytes is received whole ("any bytes at all … 1024 bytes, oversized":
+longer datagrams may be cut by the receive buffer; what the responder sees of them is judged) -/
+def wholeUpTo : Nat := 1024
+
 /-- the largest TCP port number -/
 def maxPort : Nat := 65535
 
